@@ -98,6 +98,12 @@ LOCATION_NAMES = ["home", "x", "Flughafen München", "Zürich", "Düsseldorf-Loh
 
 def run_session(col, binpath, rng, tag, scratch, n_events):
     lat, lon = rng.choice([(52.0, 4.0), (0.0, 0.0), (-33.9, 151.2), (89.0, 0.0), (40.0, 179.9)])
+    # the command line accepts any number as receiver position: one session in eight gets a
+    # non-finite or out-of-range one (the traffic is then placed around 52 N 4 E)
+    rx_lat, rx_lon = lat, lon
+    if rng.random() < 0.125:
+        rx_lat, rx_lon = rng.choice([(float("nan"), 4.0), (52.0, float("nan")), (float("inf"), float("-inf")), (91.0, 181.0), (-1e300, 1e300)])
+        lat, lon = 52.0, 4.0
     n_air = rng.choice([0, 0, 1, 3, 10, 40])
     traffic = rng.choice(["stopped", "running"])
     opts = []
@@ -147,7 +153,7 @@ def run_session(col, binpath, rng, tag, scratch, n_events):
     quit_how = rng.choice(["q", "CtrlC"])
     cls = f"air={'0' if n_air == 0 else 'some'}|ft={ft}"
     inp = {"options": opts, "size": [rows, cols], "aircraft": n_air, "traffic": traffic, "events": [describe(e) for e in events], "quit": quit_how, "tag": tag}
-    sess = session.RadarSession(binpath, plan, lat=lat, lon=lon, opts=opts, rows=rows, cols=cols, scratch=scratch)
+    sess = session.RadarSession(binpath, plan, lat=rx_lat, lon=rx_lon, opts=opts, rows=rows, cols=cols, scratch=scratch)
     try:
         sess.wait_connected()
         sess.p.pump(0.6)
@@ -221,7 +227,7 @@ def quit_while_waiting(col, binpath, rng, tag, scratch):
     sess = session.RadarSession(binpath, [], opts=rng.choice([[], ["--retry-tcp"], ["--touchscreen"]]), rows=24, cols=80, scratch=scratch, listen=False)
     inp = {"scenario": "quit while 'Waiting for connection'", "keys": pre + [how], "argv": sess.argv}
     try:
-        sess.p.pump(1.0)
+        sess.p.pump(rng.choice([1.0, 4.0]))
         if not sess.p.alive():
             col.add("C17", "C17|terminated_before_quit|while_waiting", f"radar exited with status {sess.p.p.returncode} (panic {sess.panic_location()}) while waiting for a connection", inp)
             return
@@ -254,7 +260,7 @@ def quit_on_reconnect_screen(col, binpath, rng, tag, scratch):
             sess.p.pump(0.1)
         if not flapping:
             sess.srv.sock.close()  # nothing listens any more: every reconnect attempt is refused
-        sess.p.pump(1.5)
+        sess.p.pump(rng.choice([1.5, 4.5]))  # hundreds of refused attempts
         if not sess.p.alive():
             col.add("C17", f"C17|terminated_before_quit|reconnect_wait|{sess.panic_location()}", f"with --retry-tcp radar exited (status {sess.p.p.returncode}) when the server went away", inp)
             return
